@@ -451,6 +451,28 @@ def replay(pid, rp):
     if "case" in r:
         rc, out, _ = vlib.sh([harness, "disreplay"] + r["case"].split(), timeout=300)
         print(out.strip())
+        # the same case inside Coq: the real lines against both variants of the model (vm_compute)
+        try:
+            d = os.path.join(vlib.WORK, "disreplay")
+            shutil.rmtree(d, ignore_errors=True)
+            os.makedirs(d)
+            open(os.path.join(d, "r.case"), "w").write(r["case"].replace("corpus:", "") + "\n")
+            vlib.sh([harness, "discases", "-corpus", d, "-corpus-only", "-out", os.path.join(d, "cases.txt")], timeout=300)
+            if not vlib.run_gen("cpu"):
+                for n in ("GenFields", "GenCpu65", "GenCpuAlt"):
+                    vlib.coqc(os.path.join(vlib.GEN, n + ".v"), timeout=600)
+                vlib.write_if_changed(os.path.join(vlib.RUN, "C14_pure.v"), PURE_V)
+                vlib.coqc(os.path.join(vlib.RUN, "C14_pure.v"))
+                conv = [case_to_coq(l) for l in open(os.path.join(d, "cases.txt")).read().splitlines()]
+                pv = os.path.join(vlib.RUN, "Cases_C14_replay.v")
+                vlib.write_if_changed(pv, CASES_HEAD + ";\n".join(c[1] for c in conv if c) + "\n" + CASES_TAIL)
+                crc, cout, _, _ = vlib.coqc(pv, timeout=300)
+                bf, bt = parse_list(cout, "bad_fixed"), parse_list(cout, "bad_today")
+                kinds = {0: "System.RunUntil+Logger", 1: "cpualt.DisassembleCurrentPC", 2: "cpualt.Disassemble", 3: "cpu65c816.DisassembleTo"}
+                print("inside Coq (build/work/Run/Cases_C14_replay.v): real lines that differ from the repaired model: %s; from the model of the code as found: %s"
+                      % ([kinds[k % 4] for k in (bf or [])], [kinds[k % 4] for k in (bt or [])]))
+        except Exception as e:  # the Go replay above is the verdict
+            print("Coq replay unavailable:", e)
         return 1 if rc != 0 else 0
     if "program" in r:
         rc, out, _ = vlib.sh([harness, "disrun", "-seed", str(r["seed"]), "-n", str(r.get("n", 400)), "-only", str(r["program"])], timeout=600)
